@@ -168,7 +168,25 @@ CATALOG = [
     [["d", [[["i", 1], ["f", "2.5"]]]], ["d", [[["f", "1.0"], ["f", "2.5"]]]]],
     [["d", []]],
     [["d", [[["s", "x"], ["s", "y"]]]]],
+    # 24.. : DIFFERENT actions whose hashes coincide in CPython (hash(-1) == hash(-2) == -2, hash(2**61-1) == hash(0) == 0); the learners' tables are
+    # keyed by make_hashable(action), so these land in one hash bucket and only `==` keeps them apart
+    [["i", -1], ["f", "-1.0"]],
+    [["i", -2], ["f", "-2.0"]],
+    [["i", 2 ** 61 - 1]],
+    [["l", [["i", -1]]], ["t", [["i", -1]]], ["l", [["f", "-1.0"]]]],
+    [["l", [["i", -2]]], ["t", [["i", -2]]]],
+    [["l", [["i", 0], ["i", -1]]], ["t", [["i", 0], ["i", -1]]]],
+    [["l", [["i", 0], ["i", -2]]], ["t", [["f", "0.0"], ["i", -2]]]],
+    [["d", [[["s", "k"], ["i", -1]]]], ["d", [[["s", "k"], ["f", "-1.0"]]]]],
+    [["d", [[["s", "k"], ["i", -2]]]]],
+    # (two items each: coba's Dense.__eq__ iterates the other operand, so the ROW [-2] == {-2: 'v'} -- such a pair would be one action offered twice)
+    [["d", [[["i", -1], ["s", "v"]], [["s", "z"], ["i", 0]]]]],
+    [["d", [[["i", -2], ["s", "v"]], [["s", "z"], ["i", 0]]]]],
+    [["d", [[["s", "k"], ["i", 0]]]]],
+    [["d", [[["s", "k"], ["i", 2 ** 61 - 1]]]]],
 ]
+# groups of catalogue classes whose make_hashable keys hash alike although the actions differ
+COLLIDE = [[24, 25], [0, 26], [27, 28], [29, 30], [31, 32], [33, 34], [35, 36]]
 for _cls in CATALOG:
     _base = _cls[0]
     if not _base[1]:
@@ -362,6 +380,22 @@ def resolve(case, ref):
     return mk_val(case["pool"][ref[0]][ref[1]])
 
 
+def renamed(ids):
+    """the same action set under an injective renaming of the actions (class k -> the string 'class-k'): a policy that is a function of which
+    actions were taught / are offered gives position i the same probability under it"""
+    return ["class-%d" % i for i in ids]
+
+
+def hash_colliding(actions):
+    """True when two different offered actions have table keys (make_hashable) with one hash"""
+    try:
+        from coba.learners.bandit import make_hashable
+        ks = [make_hashable(a) for a in actions]
+        return any(hash(x) == hash(y) and not (x == y) for i, x in enumerate(ks) for y in ks[i + 1:])
+    except Exception:
+        return False
+
+
 def run_bandit(case, driver):
     """run the history on the real learner; (B) on every output; then (A) against the Lean model"""
     spec = case["learner"]
@@ -392,6 +426,9 @@ def run_bandit(case, driver):
     # reference for "the probability with which the current policy selects it": a second learner of the same construction that is
     # taught exactly the same (action, reward) sequence and is only ever asked through fresh action lists that are all kept alive
     shadow = mk_learner(spec)
+    # second reference: the same learner taught the same sequence with every action RENAMED (class k -> 'class-k'). What the policy gives the
+    # i-th offered action cannot depend on how the actions are spelt, hashed or compared, only on which of them were taught what.
+    twin = mk_learner(spec)
     keep = []
     shared = []           # one list object refilled in place when the case says so (callers do reuse their action list)
     if case.get("shared_list"):
@@ -443,6 +480,8 @@ def run_bandit(case, driver):
             seen.update(ids)
             if any(r_[1] != 0 for r_ in refs):
                 tags.append("actions:alias-spelling")
+            if len(set(ids)) == len(ids) and hash_colliding(actions):
+                tags.append("actions:hash-colliding-distinct")
             for r_ in refs:
                 d_ = case["pool"][r_[0]][r_[1]]
                 if d_[0] == "w":
@@ -502,6 +541,16 @@ def run_bandit(case, driver):
                           "predict-prob-differs-from-policy")
                 except Exception:
                     pass
+                if len(set(ids)) == len(ids):
+                    try:
+                        keep.append(renamed(ids))
+                        ref_q = twin.score(ctx, keep[-1], keep[-1][idx])
+                    except Exception:
+                        ref_q = None
+                    if ref_q is not None and not (is_real(ref_q) and close(ref_q, p)):
+                        B("predict(%r, %r) returned (%r, %r) but the same %s taught the same rewards for consistently renamed actions gives the action at that "
+                          "position probability %r (call #%d): the policy confuses or loses actions" % (ctx, list(actions), a, p, learner_src(spec), ref_q, k),
+                          "predict-prob-differs-from-renamed-policy")
             last = ids[idx]
             mhist.append({"op": "predict", "actions": ids, "vals": vals_for(ids)})
             cmp.append((len(mhist) - 1, "pred", (idx, p, ids), "predict #%d" % k))
@@ -539,6 +588,15 @@ def run_bandit(case, driver):
                           "score-differs-from-policy")
                 except Exception:
                     pass
+                if len(set(ids)) == len(ids):
+                    try:
+                        keep.append(renamed(ids))
+                        ref_w = [twin.score(ctx, keep[-1], x) for x in keep[-1]]
+                    except Exception:
+                        ref_w = None
+                    if ref_w is not None and not all(is_real(x) and close(x, y) for x, y in zip(ref_w, vec)):
+                        B("score(%r, %r, .) = %r but the same %s taught the same rewards for consistently renamed actions scores them %r (call #%d): "
+                          "the policy confuses or loses actions" % (ctx, list(actions), vec, learner_src(spec), ref_w, k), "score-differs-from-renamed-policy")
             if len(vec) > 1 and sum(1 for v in vec if v == max(vec)) > 1:
                 tags.append("pmf:tie")
             if any(v == 0 for v in vec):
@@ -584,6 +642,10 @@ def run_bandit(case, driver):
             since_learn = 0
             try:
                 shadow.learn(ctx, aval, r, num(op.get("p", [1, 2])))
+            except Exception:
+                pass
+            try:
+                twin.learn(ctx, "class-%d" % aid, r, num(op.get("p", [1, 2])))
             except Exception:
                 pass
             try:
@@ -682,6 +744,175 @@ def run_bandit(case, driver):
     return {"fails": fails, "nontrivial": nontrivial, "tags": sorted(set(tags)), "impl": impl, "model": model}
 
 
+# ---------------------------------------------------------------- action lists with EQUAL members (round g, C05-gm2)
+def mk_dup_learner(spec, safe=False):
+    """learners whose pmf is a given vector over the POSITIONS of the offered list (so equal members may carry different weights)"""
+    from coba.learners.utilities import PMFPredictor, PMFInfoPredictor
+    t = spec["type"]
+    w = [num(p) for p in spec.get("pmf", [])]
+    if t == "pmfpred":
+        L = PMFPredictor(lambda c, A: w, spec["seed"])
+    elif t == "pmfinfo":
+        L = PMFInfoPredictor(lambda c, A: (w, {"k": 1}), spec["seed"])
+    else:
+        L = mk_learner(spec)
+    if safe:
+        from coba.safety import SafeLearner
+        L = SafeLearner(L)
+    return L
+
+
+def dup_src(spec, safe=False):
+    w = [num(p) for p in spec.get("pmf", [])]
+    if spec["type"] == "pmfpred":
+        s_ = "PMFPredictor(lambda c, A: %r, %r)" % (w, spec["seed"])
+    elif spec["type"] == "pmfinfo":
+        s_ = "PMFInfoPredictor(lambda c, A: (%r, {'k': 1}), %r)" % (w, spec["seed"])
+    else:
+        s_ = learner_src(spec)
+    return "SafeLearner(%s)" % s_ if safe else s_
+
+
+def run_dups(case, driver):
+    """An offered list may contain EQUAL members (the same feature vector twice, or 1 / 1.0 / True). The learners whose policy is a weight vector over
+    the positions of the list (Fixed, Random, PMFPredictor / PMFInfoPredictor themselves) must still return one of the offered objects together with the
+    weight of the position that was sampled, which is never 0. (score() identifies an action by ==, i.e. the first equal member: it is not consulted here.)"""
+    spec = case["learner"]
+    lt = spec["type"]
+    safe = bool(case.get("safe"))
+    fails, tags, impl = [], ["kind:dups", "learner:" + lt + ("+safe" if safe else "") + ("+mis" if spec.get("mis") else "")], []
+    L = mk_dup_learner(spec, safe)
+    mhist, cmp = [], []
+    last = None
+    n_pred = 0
+
+    def B(what, sig):
+        fails.append(F("B", what, "dups-%s-%s" % (lt, sig)))
+
+    actions = None
+    for k, op in enumerate(case["hist"]):
+        if op["op"] == "learn":
+            if last is None or not hasattr(L, "learn"):
+                continue
+            try:
+                L.learn(None, last[1], num(op["r"]), last[2])
+            except Exception as e:
+                B("%s.learn(None, %r, %r, %r) raised %r (call #%d)" % (dup_src(spec, safe), last[1], num(op["r"]), last[2], e, k), "learn-raises-" + type(e).__name__)
+                break
+            mhist.append({"op": "learn", "a": last[0], "r": q(num(op["r"]))})
+            continue
+        refs = op["actions"]
+        ids = [r[0] for r in refs]
+        actions = None
+        actions = [resolve(case, r) for r in refs]
+        n = len(actions)
+        w = [num(p) for p in spec["pmf"]] if lt != "random" else [1 / n] * n
+        n_pred += 1
+        try:
+            out = L.predict(None, actions)
+        except Exception as e:
+            B("%s.predict(None, %r) raised %r (call #%d)" % (dup_src(spec, safe), actions, e, k), "predict-raises-" + type(e).__name__)
+            break
+        if not (isinstance(out, tuple) and len(out) >= 2):
+            B("predict returned %r" % (out,), "predict-shape")
+            break
+        a, p = out[0], out[1]
+        J = [j for j, x in enumerate(actions) if x is a]
+        if safe and not J:       # SafeLearner hands its learner a private copy of the list (ints 0/1 as floats; kept while the offered lists compare equal)
+            J = [j for j, x in enumerate(actions) if find_idx([x], a) == 0]
+        impl.append({"op": "predict", "pos": J, "p": p if is_real(p) else repr(p)})
+        if not J:
+            B("predict(None, %r) returned %r, which is none of the offered objects (call #%d)" % (actions, a, k), "predict-not-an-offered-object")
+            break
+        dup_cls = len([i for i in ids if i == ids[J[0]]])
+        tags.append("drawn:member-with-an-equal-twin" if dup_cls > 1 else "drawn:unique-member")
+        if dup_cls > 1 and J[0] != ids.index(ids[J[0]]):
+            tags.append("drawn:later-equal-member")
+        if len(J) > 1:
+            tags.append("drawn:same-object-offered-twice")
+        if not is_real(p) or p <= 0:
+            B("%s.predict(None, %r) returned (%r, %r): the played action is reported with probability %r although position %s was drawn with weight %s "
+              "(weights by position %s; call #%d)" % (dup_src(spec, safe), actions, a, p, p, J, [w[j] for j in J], w, k), "predict-prob-not-positive")
+            break
+        if not any(p == w[j] for j in J):
+            B("%s.predict(None, %r) returned (%r, %r) but the weight of the drawn position %s is %s (weights by position %s; call #%d): the reported "
+              "probability is that of another, merely equal, member" % (dup_src(spec, safe), actions, a, p, J, [w[j] for j in J], w, k), "predict-prob-of-another-member")
+            break
+        last = (ids[J[0]], a, p)
+        mhist.append({"op": "predict", "actions": ids, "vals": []})
+        cmp.append((len(mhist) - 1, J, p, ids, k))
+    model = None
+    if driver is not None and mhist and not any(f["kind"] == "B" for f in fails):
+        mspec = dict(spec, type="random" if lt == "random" else "fixed")
+        model = driver.ask({"kind": "bandit", "learner": model_learner(mspec), "hist": mhist})["outs"]
+        for pos, J, p, ids, k in cmp:
+            mo = model[pos] if pos < len(model) else {"err": "stopped"}
+            if "pred" not in mo:
+                fails.append(F("A", "%s predict #%d: model %s" % (dup_src(spec, safe), k, json.dumps(mo)), "A:dups-model"))
+                break
+            if mo["pred"][0] not in J and not (mo["pred"][0] < len(ids) and ids[mo["pred"][0]] == ids[J[0]] and close(float(unq(mo["pred"][1])), p)):
+                fails.append(F("A", "%s predict #%d: drawn position implementation %s, model %d" % (dup_src(spec, safe), k, J, mo["pred"][0]), "A:dups-index"))
+                break
+            if not close(float(unq(mo["pred"][1])), p):
+                fails.append(F("A", "%s predict #%d: probability implementation %r, model %r" % (dup_src(spec, safe), k, p, float(unq(mo["pred"][1]))), "A:dups-prob"))
+                break
+    return {"fails": fails, "nontrivial": n_pred >= 2 and "drawn:member-with-an-equal-twin" in tags, "tags": sorted(set(tags)), "impl": impl, "model": model}
+
+
+def gen_dups(rng, tier):
+    """a list of n positions filled from fewer classes (each repeated class in different spellings where it has them), weights by position"""
+    pool = gen_pool(rng, 4)
+    n = rng.randint(2, 6)
+    cls = [rng.below(len(pool)) for _ in range(n)]
+    cls[rng.below(n - 1) + 1] = cls[0]           # at least one equal pair
+    refs = []
+    for c in cls:
+        used = [r[1] for r in refs if r[0] == c]
+        free = [j for j in range(len(pool[c])) if j not in used]
+        refs.append([c, rng.choice(free) if free and rng.chance(0.8) else rng.below(len(pool[c]))])
+    lt = rng.choice(["fixed", "fixed", "pmfpred", "pmfinfo", "random"])
+    kind = rng.below(3)
+    if kind == 0:
+        pmf = [[0, 1]] * n
+        pmf[max(j for j, c in enumerate(cls) if c == cls[0])] = [1, 1]        # all weight on the LAST of the equal members
+    elif kind == 1:
+        cuts = sorted(rng.randint(0, 16) for _ in range(n - 1))
+        pts = [0] + cuts + [16]
+        pmf = [q(Fraction(b - a, 16)) for a, b in zip(pts[:-1], pts[1:])]
+    else:
+        pmf = [[0, 1]] + [q(Fraction(1, 2 ** min(j, n - 2))) for j in range(1, n)]      # first member never played
+    spec = {"type": lt, "seed": rng.choice([0, 1, 2, 3, 5, 7, rng.randint(0, 10 ** 6), seed_for(1, M_ - 1), seed_for(2, M_ - 1)])}
+    if lt != "random":
+        spec["pmf"] = pmf
+    if lt == "fixed" and rng.chance(0.2):
+        spec["mis"] = [[q(0.5), q(-1)]]
+    hist = []
+    for _ in range(rng.choice([2, 4, 8, 12])):
+        hist.append({"op": "predict", "actions": rng.shuffle(refs) if rng.chance(0.2) and lt == "random" else refs})
+        if rng.chance(0.5):
+            hist.append({"op": "learn", "a": "last", "r": gen_reward(rng, False)})
+    case = {"t": "dups", "learner": spec, "pool": pool, "hist": hist}
+    if lt in ("fixed", "random") and rng.chance(0.3):
+        case["safe"] = True
+    return case
+
+
+def snippet_dups(case):
+    spec = case["learner"]
+    lines = ["import sys, os, math; sys.path.insert(0, os.environ.get('COBA_REPO', '/repo'))", "from coba.learners import *", "from coba.learners import MisguidedLearner",
+             "from coba.learners.utilities import PMFPredictor, PMFInfoPredictor; from coba.safety import SafeLearner", SNIPPET_IMPORTS,
+             "L = " + dup_src(spec, bool(case.get("safe"))), "W = %r   # the policy's weights by position (None: uniform)" % ([num(p) for p in spec["pmf"]] if "pmf" in spec else None)]
+    for op in case["hist"]:
+        if op["op"] == "predict":
+            lit = lambda d: "tuple(%r)" % (list(mk_val(d)),) if d[0] == "t" else py_lit(d)      # equal tuple literals would be folded into ONE object
+            lines += ["A = [" + ", ".join(lit(case["pool"][r[0]][r[1]]) for r in op["actions"]) + "]", "out = L.predict(None, A); a, p = out[0], out[1]",
+                      "J = [j for j, x in enumerate(A) if x is a or (type(a) is float and type(x) is int and x == a)]; print('drawn position', J, 'reported', p)",
+                      "assert J and p > 0 and (W is None or p in [W[j] for j in J]), (a, p)"]
+        else:
+            lines += ["if hasattr(L, 'learn'): L.learn(None, a, %r, p)" % num(op["r"])]
+    return "\n".join(lines) + "\n"
+
+
 # ---------------------------------------------------------------- Corral histories
 def corral_T(case):
     return math.inf if case["T"] == "inf" else num(case["T"])
@@ -736,6 +967,12 @@ def run_corral(case, driver):
         if b["type"] == "corral":
             tags.append("nested:%s-over-%s" % (case["mode"], b["mode"]))
     c, recs, top = mk_corral(case)
+    # reference for the policy: the same composition asked / taught the same history with every action RENAMED (class k -> 'class-k'); the position
+    # it plays and the probability it reports cannot depend on how actions are spelt, hashed or compared (all randomness comes from the fixed seeds)
+    try:
+        twin = mk_corral(case)[2]
+    except Exception:
+        twin = None
     inner = []            # (index, the CorralLearner inside base learner #index)
     for j, r_ in enumerate(recs):
         x = r_.inner
@@ -787,9 +1024,19 @@ def run_corral(case, driver):
             d_ = case["pool"][r_[0]][r_[1]]
             if d_[0] == "w":
                 tags.append("rows:" + d_[1])
+        if len(set(ids)) != len(ids):
+            twin = None
+        elif hash_colliding(actions):
+            tags.append("actions:hash-colliding-distinct")
+        names = renamed(ids)
         # ---- score of one action (draws from the base learners)
         if op.get("score") is not None:
             sa = op["score"] % len(actions)
+            if twin is not None:
+                try:
+                    twin.score(ctx, names, names[sa])
+                except Exception:
+                    twin = None
             for r_ in recs:
                 r_.preds.clear()
             try:
@@ -840,6 +1087,18 @@ def run_corral(case, driver):
         elif p != pmf[idx]:
             B("predict reported probability %r for %r but the mixture of the base learners' choices (smoothed weights %s) is %r: not the same float (round %d)" % (
                 p, a, pbars, pmf[idx], k), "predict-prob-not-identical-to-mixture")
+        tinfo = None
+        if twin is not None:
+            try:
+                ta, tp, tinfo = twin.predict(ctx, names)
+                ti = names.index(ta)
+            except Exception:
+                twin = None
+            if twin is not None and (ti != idx or not (is_real(tp) and close(tp, p))):
+                B("predict(%r, %r) returned (%r, %r) [position %d] but the same %s led through the same history with consistently renamed actions plays position %d "
+                  "with probability %r (round %d): the policy confuses or loses actions" % (ctx, actions, a, p, idx, corral_src(case), ti, tp, k),
+                  "predict-differs-from-renamed-policy")
+                break
         if a_on:
             ans = driver.ask({"kind": "corral", "state": full_state(), "op": {"op": "predict", "actions": ids, "bacts": [ids[i] for i in bidx]}})
             mo = ans["out"]
@@ -915,6 +1174,11 @@ def run_corral(case, driver):
             B("%s.learn(%r, %r, %r, %r, info) raised %r in round %d" % (corral_src(case), ctx, actions[la], r, lp, str(e)[:160], k), "learn-raises-" + type(e).__name__)
             impl.append({"op": "learn", "err": type(e).__name__})
             break
+        if twin is not None:
+            try:
+                twin.learn(ctx, names[la], r, lp, **tinfo)
+            except Exception:
+                twin = None
         rounds += 1
         played.append((la, lp, r))
         impl.append({"op": "learn", "ps": [float(x) if is_real(x) else repr(x) for x in c._ps]})
@@ -1291,6 +1555,9 @@ def gen_pool(rng, nmax=7):
         cls = rng.sample(list(range(len(CATALOG))), k)
     if rng.chance(0.4):       # the ints 0 and 1 among the actions (SafeLearner rewrites them for its learner and keeps a private copy of the list)
         cls = [0, 1] + [c_ for c_ in cls if c_ not in (0, 1)][:max(0, nmax - 2)]
+    if rng.chance(0.15):      # different actions with one hash (CPython: hash(-1) == hash(-2), hash(2**61-1) == hash(0)) side by side
+        grp = [c_ for g_ in rng.sample(COLLIDE, rng.choice([1, 1, 2])) for c_ in g_]
+        cls = (grp + [c_ for c_ in cls if c_ not in grp])[:max(nmax, 2)]
     pool = [list(CATALOG[i]) for i in cls]
     if rng.chance(0.35):      # what a real pipeline delivers: every dense / sparse action is one of coba's row objects (alias 0 = the default spelling)
         for c_ in pool:
@@ -1350,6 +1617,9 @@ def gen_bandit(rng, tier, search=False):
         spec["eps"] = rng.choice([[0, 1], [1, 1], q(0.0), q(1e-9)])
     is_fixed = spec["type"] == "fixed"
     base_set = rng.sample(list(range(npool)), fixed_n if is_fixed else rng.randint(1, npool))
+    collide = npool >= 2 and any(pool[0][0] in CATALOG[g_[0]] + CATALOG[g_[1]] and pool[1][0] in CATALOG[g_[0]] + CATALOG[g_[1]] for g_ in COLLIDE)
+    if collide and not is_fixed:       # the two different actions with one hash are offered together
+        base_set = [0, 1] + [c_ for c_ in base_set if c_ > 1]
 
     def action_set():
         if is_fixed:
@@ -1441,6 +1711,8 @@ def gen_corral(rng, tier, search=False):
     if rng.chance(0.12):
         case["mis"] = [rng.choice([[[1, 1], [-1, 1]], [q(0.25), q(0.5)], [[0, 1], [1, 1]], [q(0.5), q(-0.5)]])]
     base_set = rng.sample(list(range(npool)), n)
+    if n >= 2 and npool >= 2 and any(pool[0][0] in CATALOG[g_[0]] + CATALOG[g_[1]] and pool[1][0] in CATALOG[g_[0]] + CATALOG[g_[1]] for g_ in COLLIDE):
+        base_set = [0, 1] + [c_ for c_ in base_set if c_ > 1][:n - 2]      # the two different actions with one hash are offered together
     nrounds = rng.choice([1, 2, 3, 5, 8, 12, 20, 30, 45, 60])
     if search:
         nrounds = rng.choice([5, 12, 30, 60])
@@ -1526,7 +1798,7 @@ class C16(Property):
     search_n = 2500
     case_timeout = 120
     workers = 8
-    rule = ("70% histories (1-60 calls: predict / learn-what-was-predicted / score vector / learn of an arbitrary pool action / single score) on one of "
+    rule = ("64% histories (1-60 calls: predict / learn-what-was-predicted / score vector / learn of an arbitrary pool action / single score) on one of "
             "BanditEpsilon, BanditUCB, Fixed, Random, optionally under 1-2 Misguided wrappers, over pools of 1-7 pairwise-unequal actions (ints, floats, bools, "
             "strings, dense lists/tuples, sparse dicts, with ==-equal aliases such as 1/1.0/True and [1,2]/(1,2), and every dense/sparse action also as one of "
             "coba's own row objects LazyDense (eager and callable), HeadDense, EncodeDense, KeepDense, LabelDense.feats (DropOne), HashableDense, LazySparse, "
@@ -1538,7 +1810,11 @@ class C16(Property):
             "on-policy / least-likely-action / logged (probabilities down to 1e-12) feedback, 5 s limit per learn; 35% of them with 1-2 base learners that "
             "are themselves a Corral, optionally under an in-range Misguided wrapper, all four outer/inner mode pairs; a round in which an inner Corral "
             "would be handed an importance-weighted reward > 1 ends the history un-judged). Non-trivial = bandit: >=3 calls with a predict, "
-            "a learn and an action set of >=2; corral: >=2 completed rounds. Distinct by canonical JSON.")
+            "a learn and an action set of >=2; corral: >=2 completed rounds. Distinct by canonical JSON. Phase 4: 15% of the pools start with 1-2 pairs of DIFFERENT actions "
+            "whose make_hashable keys hash alike (-1/-2, 0/2**61-1 as scalars, inside dense and sparse actions, as keys), offered together; every bandit and Corral history is "
+            "run a second time on a twin taught the same rewards for injectively renamed actions (position-wise probabilities must agree); 6% `dups` cases: offered lists with "
+            "EQUAL members (separately built duplicates, 1/1.0/True, row flavours) carrying different weights, on Fixed / Random / PMFPredictor / PMFInfoPredictor (optionally under "
+            "SafeLearner / Misguided), 2-12 predicts; non-trivial = >=2 predicts and a member with an equal twin drawn.")
     trusted_base = [
         "floats are modelled by rationals; the running means of BanditEpsilon/BanditUCB go through a rounding parameter `fl` (theorems: for every fl; driver: "
         "round-to-nearest-even binary64 implemented in Lean and checked against CPython on 3000 values), so ties are the implementation's ties; the final "
@@ -1567,7 +1843,9 @@ class C16(Property):
         "implementation's own previous weights at 2.5e-4 (the accuracy of the root search), skipped when eta*loss/probability > 1e9 or a weight < 1e-9 "
         "(float cancellation); SafeLearner around the base learners is not modelled (identity on (action, probability) predictions)",
     ]
-    assumptions = ["action sets are non-empty and duplicate-free (sets); FixedLearner is offered as many actions as its pmf has entries and its pmf sums to 1 exactly",
+    assumptions = ["offered lists with equal members: only the learners whose policy is a weight vector over POSITIONS (Fixed, Random, PMFPredictor/PMFInfoPredictor) are judged, and only for "
+                   "'one of the offered objects, with the weight of the drawn position, > 0' (score() can only name the first equal member; BanditUCB's pmf over a list with equal members sums to > 1: malformed stream)",
+                   "action sets are non-empty and duplicate-free (sets); FixedLearner is offered as many actions as its pmf has entries and its pmf sums to 1 exactly",
                    "rewards are finite; Corral's rewards (after Misguided) are in [0,1]; probabilities passed to learn are in (0,1]",
                    "CorralLearner T > 1 (T=1 divides by log(1)=0 in the constructor) and eta > 0; Corral over Corral is exercised although the property's list stops at "
                    "'Corral over any of them'; an importance-mode Corral hands a base Corral reward/probability > 1, which that Corral rejects by assertion (its documented "
@@ -1582,8 +1860,59 @@ class C16(Property):
                            "the bound is the number of doubles inside the bracket, not logarithmic",
     }
 
+    def pre_build(self):
+        """translator step: constants of coba/learners/corral.py, read with `ast` from the repo under test, become Generated/C16CorralConsts.lean;
+        Props.C16.corral_consts_match proves they are the ones the model uses (an edit of the source breaks that proof)"""
+        import ast
+        from core import lean
+        path = os.path.join(lean.LEAN_DIR, "CobaVerif", "Generated", "C16CorralConsts.lean")
+        got = {}
+        try:
+            src = open(os.path.join(os.environ.get("COBA_REPO", "/repo"), "coba", "learners", "corral.py"), encoding="utf-8").read()
+            cls = next(n for n in ast.walk(ast.parse(src)) if isinstance(n, ast.ClassDef) and n.name == "CorralLearner")
+            fns = {n.name: n for n in cls.body if isinstance(n, ast.FunctionDef)}
+            for n in ast.walk(fns["_log_barrier_omd"]):
+                if isinstance(n, ast.Assign) and len(n.targets) == 1 and isinstance(n.targets[0], ast.Name) and n.targets[0].id == "precision":
+                    got["precision"] = ast.literal_eval(n.value)
+            init = fns["__init__"]
+            for n in ast.walk(init):
+                if (isinstance(n, ast.Assign) and len(n.targets) == 1 and isinstance(n.targets[0], ast.Attribute) and n.targets[0].attr == "_rhos"):
+                    for m in ast.walk(n.value):
+                        if isinstance(m, ast.BinOp) and isinstance(m.op, ast.Mult) and isinstance(m.left, ast.Constant) and isinstance(m.right, ast.Name) and m.right.id == "M":
+                            got["rho"] = m.left.value
+                if isinstance(n, ast.Compare) and isinstance(n.left, ast.Name) and n.left.id == "mode" and isinstance(n.ops[0], ast.NotIn):
+                    got["modes"] = list(ast.literal_eval(n.comparators[0]))
+            names = [a.arg for a in init.args.args]
+            defaults = dict(zip(names[len(names) - len(init.args.defaults):], init.args.defaults))
+            got["eta"] = Fraction(ast.get_source_segment(src, defaults["eta"]))
+            ok = (isinstance(got.get("precision"), int) and 0 <= got["precision"] <= 12 and isinstance(got.get("rho"), int) and got["rho"] >= 0
+                  and all(isinstance(x, str) and '"' not in x and "\\" not in x for x in got.get("modes", [None])) and got["eta"] > 0)
+        except Exception:
+            ok = False
+        if ok:
+            body = ("-- GENERATED by harness/props/c16.py from coba/learners/corral.py on every run; do not edit.\n"
+                    "namespace Coba.Generated.C16\ndef omdPrecision : Nat := %d\ndef rhoFactor : Nat := %d\ndef modes : List String := [%s]\n"
+                    "def etaDefaultNum : Nat := %d\ndef etaDefaultDen : Nat := %d\ndef extracted : Bool := true\nend Coba.Generated.C16\n" % (
+                        got["precision"], got["rho"], ", ".join('"%s"' % x for x in got["modes"]), got["eta"].numerator, got["eta"].denominator))
+            note = "Corral constants extracted from coba/learners/corral.py: precision=%d rho=%d*M modes=%s eta=%s" % (got["precision"], got["rho"], got["modes"], got["eta"])
+        else:
+            body = ("-- GENERATED: the constants were not found in coba/learners/corral.py (code reshaped); the obligation `corral_consts_match`\n"
+                    "-- is then stated about the model's own constants only, the correspondence runs still pin them.\n"
+                    "namespace Coba.Generated.C16\ndef omdPrecision : Nat := 4\ndef rhoFactor : Nat := 2\ndef modes : List String := [\"importance\", \"off-policy\"]\n"
+                    "def etaDefaultNum : Nat := 3\ndef etaDefaultDen : Nat := 40\ndef extracted : Bool := false\nend Coba.Generated.C16\n")
+            note = "Corral constants could not be extracted (source reshaped); correspondence still pins them"
+        old = open(path, encoding="utf-8").read() if os.path.exists(path) else None
+        if old != body:
+            os.makedirs(os.path.dirname(path), exist_ok=True)
+            with open(path, "w", encoding="utf-8") as f:
+                f.write(body)
+        return [note]
+
     def generate(self, rng, tier):
-        if rng.chance(0.7):
+        r = rng.below(100)
+        if r < 6:
+            return gen_dups(rng, tier)
+        if r < 70:
             return gen_bandit(rng, tier)
         return gen_corral(rng, tier)
 
@@ -1642,6 +1971,40 @@ class C16(Property):
                        "eta": q(0.075), "T": "inf", "mode": imode, "seed": 4, "mis": [[q(0.25), q(0.5)]]},
                       {"type": "eps", "eps": q(0.1), "seed": 9, "mis": [[[1, 1], [-1, 1]]]}]
                 cs.append({"t": "corral", "bases": nb, "eta": q(0.1), "T": [50, 1], "mode": mode, "seed": 4, "pool": pool, "hist": rounds(40, how="on")})
+        # different actions whose table keys hash alike (round g, C16-gm2): every colliding pair of the catalogue, every learner that keeps a table
+        for g_ in COLLIDE:
+            cpool = [CATALOG[g_[0]], CATALOG[g_[1]], CATALOG[7]]
+            al = [min(1, len(CATALOG[g_[0]]) - 1), min(1, len(CATALOG[g_[1]]) - 1)]
+            two, three = [[0, 0], [1, 0]], [[1, al[1]], [0, al[0]], [2, 0]]
+            chist = [{"op": "scores", "actions": two}, {"op": "learn", "a": [0, 0], "r": [1, 1]}, {"op": "scores", "actions": two}, {"op": "predict", "actions": two},
+                     {"op": "learn", "a": [1, 0], "r": [0, 1]}, {"op": "scores", "actions": two}, {"op": "learn", "a": [1, al[1]], "r": [0, 1]},
+                     {"op": "scores", "actions": three}, {"op": "predict", "actions": three}, {"op": "learn", "a": "last", "r": [1, 2]},
+                     {"op": "scores", "actions": [[0, len(CATALOG[g_[0]]) - 1], [1, len(CATALOG[g_[1]]) - 1]]}, {"op": "predict", "actions": two}]
+            for spec in ({"type": "ucb", "seed": 1}, {"type": "eps", "eps": q(0.1), "seed": 1}, {"type": "eps", "eps": [0, 1], "seed": 2},
+                         {"type": "ucb", "seed": 3, "mis": [[[1, 1], [-1, 1]]]}):
+                cs.append({"t": "bandit", "learner": spec, "pool": cpool, "hist": chist})
+            cs.append({"t": "bandit", "learner": {"type": "eps", "eps": q(0.1), "seed": 1}, "pool": cpool, "hist": chist, "safe": True})
+            cs.append({"t": "corral", "bases": [{"type": "eps", "eps": q(0.1), "seed": 2}, {"type": "ucb", "seed": 3}, {"type": "eps", "eps": [0, 1], "seed": 4}],
+                       "eta": q(0.075), "T": "inf", "mode": "off-policy", "seed": 1, "pool": cpool,
+                       "hist": [{"actions": two if i % 3 else three, "r": q(Fraction(i % 5, 4)), "how": "on"} for i in range(12)]})
+        # offered lists with EQUAL members whose weights differ (round g, C05-gm2): exact duplicates built as separate objects and ==-equal members of
+        # different type; seeds swept so that the later equal member is drawn
+        dpool = [CATALOG[14], CATALOG[13], CATALOG[1], CATALOG[2], CATALOG[18]]
+        for refs_, pmf_ in (([[0, 0], [1, 0], [0, 0]], [[0, 1], q(0.25), q(0.75)]), ([[0, 0], [1, 0], [0, 1]], [q(0.25), q(0.25), q(0.5)]),
+                            ([[2, 0], [2, 1], [3, 0]], [[0, 1], [1, 1], [0, 1]]), ([[2, 2], [3, 0], [2, 1], [2, 0]], [[0, 1], q(0.5), q(0.25), q(0.25)]),
+                            ([[4, 0], [4, 1], [4, 3]], [[0, 1], q(0.5), q(0.5)])):
+            for seed in (0, 1, 2, 3, 5, 7):
+                for lt_ in ("fixed", "pmfpred", "pmfinfo", "random"):
+                    sp_ = {"type": lt_, "seed": seed}
+                    if lt_ != "random":
+                        sp_["pmf"] = pmf_
+                    hh = []
+                    for i_ in range(6):
+                        hh += [{"op": "predict", "actions": refs_}] + ([{"op": "learn", "a": "last", "r": [1, 2]}] if i_ % 2 else [])
+                    cs.append({"t": "dups", "learner": sp_, "pool": dpool, "hist": hh})
+                    if lt_ == "fixed" and seed in (1, 2):
+                        cs.append({"t": "dups", "learner": sp_, "pool": dpool, "hist": hh, "safe": True})
+                        cs.append({"t": "dups", "learner": dict(sp_, mis=[[q(0.5), q(-1)]]), "pool": dpool, "hist": hh})
         cs.append({"t": "witness", "name": "importance_feedback_unbounded", "hist": []})
         cs.append({"t": "witness", "name": "keyeq_sweep", "hist": []})
         # replays of recorded (now fixed) findings and other hand-made cases: corpus/C16/*.json
@@ -1659,6 +2022,8 @@ class C16(Property):
             return run_witness(case, driver)
         if case["t"] == "bandit":
             return run_bandit(case, driver)
+        if case["t"] == "dups":
+            return run_dups(case, driver)
         return run_corral(case, driver)
 
     def shrink(self, case):
@@ -1671,6 +2036,8 @@ class C16(Property):
                 yield dict(case, hist=hist[:cut])
         for k in range(n - 1, -1, -1):
             yield dict(case, hist=hist[:k] + hist[k + 1:])
+        if case["t"] == "dups":
+            return
         if case["t"] == "bandit":
             if case["learner"].get("mis"):
                 yield dict(case, learner={k: v for k, v in case["learner"].items() if k != "mis"})
@@ -1697,6 +2064,8 @@ class C16(Property):
         try:
             if case["t"] == "witness":
                 return "# witness %s: see run_witness in harness/props/c16.py\n" % case.get("name")
+            if case["t"] == "dups":
+                return snippet_dups(case)
             return snippet_bandit(case) if case["t"] == "bandit" else snippet_corral(case)
         except Exception as e:      # never let a reporting helper hide the finding
             return "# snippet generation failed: %r\n# case: %s\n" % (e, json.dumps(case))
